@@ -1407,24 +1407,7 @@ Example ex_row_proof :
   = Ok (fix_cell Z Z.add (fun v => v) (Some Z.mul) 3 6 (fold1 Z Z.add 0 [5; -2]) 2).
 Proof. vm_compute. reflexivity. Qed.
 
-(* ------------------------------------------------------------------ GCXS: what the code does outside its domain *)
 Definition ex_g : gcxs Z := mkGCXS [2; 2] [0] [1; 2] [0; 1] [0; 1; 2] 0.
-
-(* gcxs_axes_nonempty: `axis[0]` on the empty tuple raises IndexError where NumPy returns the array *)
-Lemma gcxs_axes_nonempty_refuted_proof :
-  exists (g : gcxs Z) (ax : axis_arg),
-    gcxs_wfb g = true /\
-    gcxs_reduce_z 0 ax false g = Raise IndexError /\
-    exists r, np_reduce_dense Z (op_z 0) (ufunc_cast 0) (ufunc_ident 0) ax false (todense (gcxs_to_coo Z g)) 0 = Ok r.
-Proof. exists ex_g, (AxTuple []). vm_compute. repeat split; eauto. Qed.
-
-(* gcxs_axes_distinct: a repeated axis is silently accepted where NumPy raises ValueError *)
-Lemma gcxs_axes_distinct_refuted_proof :
-  exists (g : gcxs Z) (ax : axis_arg) r,
-    gcxs_wfb g = true /\
-    gcxs_reduce_z 0 ax false g = Ok r /\
-    np_reduce_dense Z (op_z 0) (ufunc_cast 0) (ufunc_ident 0) ax false (todense (gcxs_to_coo Z g)) 0 = Raise ValueError.
-Proof. exists ex_g, (AxTuple [0; 0]). eexists. vm_compute. repeat split; reflexivity. Qed.
 
 (* ------------------------------------------------------------------ dtype promotion of mean / var *)
 (* integer and bool inputs are accumulated and returned in float64 (as numpy.mean / numpy.var do);
@@ -1455,4 +1438,8 @@ Qed.
 (* the add / multiply fill correction takes the fill value cast to data.dtype, the accumulation dtype of
    the grouped reduction (NumPy's platform integer for narrow integers) — flag generated from the source *)
 Theorem fill_correction_in_accumulation_dtype_proof : s_fix_fill_in_acc_dtype = 1.
+Proof. reflexivity. Qed.
+
+(* sparse.nanmean keeps the dtype of the sum for array results — flag generated from the source *)
+Theorem nanmean_result_in_sum_dtype_proof : s_nanmean_keeps_sum_dtype = 1.
 Proof. reflexivity. Qed.
